@@ -95,6 +95,20 @@ def generate(rng, tier):
         xi = sorted({a, b} | {rng.randint(a + 1, b - 1) for _ in range(n - 2)})
         for q in [xi[0], xi[-1]] + [rng.randint(a, b) for _ in range(6)] + [x + d for x in xi[1:-1] for d in (-1, 0, 1)][:9]:
             cases.append(case_i(xi, q, rng.choice(gen.LAYS_1D)))
+    # tiny scales: the quotient (n-1)/span is close to the largest finite value (but finite), knots a few subnormal steps apart inside
+    # wide gaps — anything that forms the quotient of a *sub-range* (a second interpolated guess, say) overflows (seed C11-r8m1)
+    for _ in range(reps):
+        n = rng.choice([4, 6, 8, 12])
+        big = 1.7976931348623157e308
+        span = (n - 1) / big * rng.uniform(1.05, 1.9)
+        d = 5e-324 * rng.choice([1, 1, 2, 7, 1000])
+        a = span * rng.uniform(0.2, 0.6)
+        xs = [0.0] + [a + k * d for k in range(n - 2)] + [span]
+        if not all(p_ < q_ for p_, q_ in zip(xs, xs[1:])) or not math.isfinite((n - 1) / (xs[-1] - xs[0])):
+            continue
+        qs = list(xs) + [a + (k + 0.5) * d for k in range(n - 2)] + [a / 2, (a + span) / 2, span * 2, -span]
+        for q in qs:
+            cases.append(case_f(xs, q, rng.choice(gen.LAYS_1D)))
     # consecutive lookups through one interpolator (`Interp1D::get_index_left_of`, `Interp2D::get_index_left_of`): each answer is the
     # bracket of its own query, whatever was asked before (sweeps through the knots, repeats, jumps)
     for _ in range(reps):
